@@ -58,9 +58,21 @@ def repetition_caps(prog, rep, RID):
                 if isinstance(t, _ast.Subscript) and dotted(t.value) == "self.edge_upper_bounds":
                     n += 1
                     tests = _enclosing_tests(f.node, st)
-                    lit1 = isinstance(st.value, _ast.Constant) and st.value.value == 1
+                    literal_one = isinstance(st.value, _ast.Constant) and st.value.value == 1
+                    lit1 = False
+                    # `min(1, <the cap itself>)`: lowered to 1, a smaller bound of the caller (0 forbids the edge, as documented) stays
+                    if isinstance(st.value, _ast.Call) and dotted(st.value.func) == "min" and len(st.value.args) == 2 and not st.value.keywords:
+                        a_, b_ = st.value.args
+                        one_ = [x for x in (a_, b_) if isinstance(x, _ast.Constant) and x.value == 1]
+                        self_ = [x for x in (a_, b_) if norm(x) == norm(t)]
+                        lit1 = len(one_) == 1 and len(self_) == 1
                     guard = any((not pol and "self.G.is_scc_edge(" in norm(tt) and not norm(tt).startswith("not")) or
                                 (pol and norm(tt).startswith("not self.G.is_scc_edge(")) for tt, pol in tests)
+                    if literal_one and guard:
+                        rep.violation(RID, "AbstractWalkModelDiGraph.__init__:cap-overwrite", f"`{norm(st)}` sets the bound of every edge outside every SCC to 1 - also when the "
+                                      "caller gave a smaller one: max_edge_repetition_dict documents 'a value of 0 forbids the edge in any walk', but the walk s,a,t through "
+                                      "the forbidden edge ('s','a') is returned; the bound may be lowered to 1 (`min(1, bound)`), never raised", f.loc(st), self_contained=True)
+                        continue
                     key = "AbstractWalkModelDiGraph.__init__:cap-overwrite"
                     if lit1 and guard:
                         rep.ok(RID, key, "caps are overwritten only with 1 and only for edges outside every SCC", f.loc(st), sample={"stmt": norm(st), "guard": [norm(tt) for tt, _ in tests]})
